@@ -95,7 +95,7 @@ func keysCoq(ks [][]byte) string {
 
 type caseResult struct {
 	levels, gets, getsLoaded, iter, seeks, prefix string
-	err                                          string
+	err                                           string
 }
 
 func runCase(kvs []kv, probes [][]byte, prefixes [][]byte) (res caseResult) {
@@ -257,6 +257,8 @@ func main() {
 		out.Check(idx, fmt.Sprintf("check_trie %s\n {| o_levels := %s;\n o_gets := %s;\n o_gets_loaded := %s;\n o_iter := %s;\n o_seeks := %s;\n o_prefix := %s |}",
 			vh.List(es), res.levels, res.gets, res.getsLoaded, res.iter, res.seeks, res.prefix))
 	}
+
+	bucketCases(out, r, cfg.N/4+3)
 
 	// large and wide key sets: compared with a sorted map directly (nodes with hundreds of labels, label counts
 	// that are exact multiples of the 64-bit word size, thousands of keys)
